@@ -108,6 +108,10 @@ def cases(shard, nshards, seed, tier):
     for fn in _corpus():
         if mine():
             yield {"family": "corpus", "file": fn}
+    # points given as integers (lattice models, unit tests): the dihedral of integer points is as good as any
+    for b in range(2 if tier == "quick" else 20):
+        if mine():
+            yield {"family": "integer-points", "batch": b, "count": 100}
     # exactly planar quadruples (cis and trans) in axis-aligned planes with exact zeros
     for perm in range(24):
         for phi_name in ("cis", "trans"):
@@ -228,6 +232,31 @@ def run_case(case, rec):
             except Exception:
                 continue
             rec.check(f"{which}.exact-planar", geom.wrapdiff(val, want) <= TOL, lambda: {"impl": which, "conformation": case["conformation"], "got": val, "want": want, "points": [list(map(float, p)) for p in pts]})
+        return
+    if fam == "integer-points":
+        from rnapolis import tertiary, tertiary_v2
+
+        rec.mark_nontrivial(True)
+        rng = random.Random(f"{os.environ.get('VERIF_SEED', '0')}:C18:int:{case['batch']}")
+        _cur["ctx"] = "integer points"
+        done = 0
+        while done < case["count"]:
+            pts = [np.array([rng.randint(-6, 6) for _ in range(3)], dtype=np.int64) for _ in range(4)]
+            ref, margin = geom.dihedral(*pts)
+            if not (margin > 0.05) or math.isnan(ref):
+                continue
+            done += 1
+            for f in (tertiary.calculate_torsion_angle_coords, tertiary_v2.calculate_torsion_angle):
+                try:
+                    f(*[p.copy() for p in pts])  # judged by the contracts against the IUPAC reference
+                except Exception:
+                    pass
+            # ... and as Atom objects built from int coordinates
+            try:
+                atoms = [tertiary.Atom(None, None, None, 1, "X", int(p[0]), int(p[1]), int(p[2]), None) for p in pts]
+                tertiary.torsion_angle(*atoms)
+            except Exception:
+                pass
         return
     if fam == "random-batch":
         rec.mark_nontrivial(True)
